@@ -7,6 +7,7 @@ from .model import _short, _tail, _d
 
 class SweepMixin(object):
     expect_sweep_failure = False
+    sweep_failed_before = False     # a failed sweep stamps nothing; the "recently subscribed" rule is off afterwards
 
     def _subscribed(self, m):
         return [cm.name for cm in self.cm.values() if cm.alive and cm.sub is m]
@@ -24,6 +25,7 @@ class SweepMixin(object):
             self.flag({"C12", "C13"}, "sweep computed with a clock other than now", st, {"now": now, "t": st.t})
         failed = bool(sw.get("exc")) or bool(st.errors) or bool(st.exc)
         if failed:
+            self.sweep_failed_before = True
             if self.expect_sweep_failure:
                 self.ev["sweep_failed_injected"] += 1
             else:
@@ -52,7 +54,11 @@ class SweepMixin(object):
                 continue
             age_low = now - m.t_low
             age_high = now - m.t_high
-            if subs or age_low < EXPIRY:
+            t_unsub = getattr(m, "t_unsub", None)
+            recently_subscribed = t_unsub is not None and (now - t_unsub) < (EXPIRY - PERIOD) and not self.sweep_failed_before
+            if recently_subscribed and not (subs or age_low < EXPIRY):
+                self.ev["c12_must_survive_recently_subscribed"] += 1
+            if subs or age_low < EXPIRY or recently_subscribed:
                 # C12
                 self.ev["c12_must_survive"] += 1
                 if subs:
